@@ -357,8 +357,8 @@ def run(tier="quick", seed=0):
             histories = sorted(P.HISTORIES)
             if not thorough:
                 # quick: every probe, the three histories that cover minimisers, placers/routers and objects
-                histories = ["minimise_merging", "objects", "pipeline_mix"] + \
-                            [["place_other_graphs"], ["route_other"]][seed % 2]
+                histories = ["minimise_merging", "objects", "pipeline_mix", "route_other"] + \
+                            [["place_other_graphs"], []][seed % 2]
             fresh = {}
             for p in probes:
                 fresh[p] = child({"history": [], "probes": [p]}, rig_root)[p]
